@@ -914,6 +914,9 @@ func c30Quiesce() bool {
 		if !busy {
 			return true
 		}
+		if k == 399 && os.Getenv("VERIF_C30_DEBUG") != "" {
+			fmt.Fprintf(os.Stderr, "C30-NOT-QUIESCENT\n%s\n", buf[:n])
+		}
 	}
 
 	return false
@@ -1286,7 +1289,7 @@ func (p *c30Parent) runWorker(spec, tag string, maxWait time.Duration, extraEnv 
 	}
 	cmd := exec.Command(os.Args[0], "-test.run", "^TestVerifC30$", "-test.timeout", "0", "-test.count", "1") //nolint:gosec
 	cmd.Env = append(os.Environ(), c30EnvWorker+"="+spec, c30EnvDir+"="+p.dir, c30EnvLog+"="+logPath,
-		c30EnvStop+"="+strconv.FormatInt(p.stop, 10), "GOMAXPROCS=2", "GOGC=400", "GOTRACEBACK=single", "VERIF_REPLAY=")
+		c30EnvStop+"="+strconv.FormatInt(p.stop, 10), "GOMAXPROCS=1", "GOGC=400", "GOTRACEBACK=single", "VERIF_REPLAY=")
 	cmd.Env = append(cmd.Env, extraEnv...)
 	cmd.Stdout = errf
 	cmd.Stderr = errf
@@ -1593,7 +1596,7 @@ func TestVerifC30(t *testing.T) { //nolint:cyclop
 	wg.Add(1)
 	go func() {
 		defer wg.Done()
-		rtpRes = p.runWorker("rtp", "rtp", 240*time.Second)
+		rtpRes = p.runWorker("rtp", "rtp", 240*time.Second, "GOMAXPROCS=4")
 	}()
 	go func() {
 		wg.Wait()
